@@ -147,7 +147,16 @@ where
 
     writeln!(writer, "#[derive(Debug, Default, YaSerialize, YaDeserialize)]")?;
     if let Some(tns) = &target_namespace {
-        let namespaces = format!("\"{}\" = \"{}\"", tns.abbreviation, tns.namespace);
+        // declare the namespace of the type and of every member that lives in another namespace
+        // (inherited members, referenced elements): the members are written with that prefix
+        let mut namespaces = vec![format!("\"{}\" = \"{}\"", tns.abbreviation, tns.namespace)];
+        for member_ns in fields.iter().filter_map(|f| f.target_namespace.as_ref()) {
+            let declaration = format!("\"{}\" = \"{}\"", member_ns.abbreviation, member_ns.namespace);
+            if !namespaces.contains(&declaration) {
+                namespaces.push(declaration);
+            }
+        }
+        let namespaces = namespaces.join(", ");
         writeln!(
             writer,
             "#[yaserde(prefix = \"{}\", namespaces = {{{}}}, rename = \"{}\")]",
